@@ -97,6 +97,33 @@ def vf1(ctx, c):
                 else:
                     verdict = verdict or False
                     why = "the guard `%s` refuses for (exists, append) in %s" % (U(tn), sorted(refuses, key=str))
+        if verdict is None:
+            # a guard spread over nested ifs (if exists: if not append: raise): the raises that precede the write in its block, each under the conjunction of the tests around it
+            blk0 = _block_of(fn_node, node)
+            raised_for = set()
+            evaluable = blk0 is not None
+            for st0 in (blk0[:blk0.index(node)] if blk0 else []):
+                def _walk_r(n0, chain):
+                    nonlocal evaluable
+                    if isinstance(n0, ast.Raise):
+                        try:
+                            from ..consteval import fold as _fg, NotConst as _Ng
+                            for e_ in (False, True):
+                                for a_ in (False, True):
+                                    if all(bool(_fg(t0, {"self.file_exists": e_, ap: a_})) == pos0 for t0, pos0 in chain):
+                                        raised_for.add((e_, a_))
+                        except _Ng:
+                            evaluable = False
+                        return
+                    if isinstance(n0, ast.If):
+                        for b0 in n0.body:
+                            _walk_r(b0, chain + [(n0.test, True)])
+                        for b0 in n0.orelse:
+                            _walk_r(b0, chain + [(n0.test, False)])
+                _walk_r(st0, [])
+            if evaluable and raised_for:
+                verdict = raised_for == {(True, False)}
+                why = "the raises before the write fire for (exists, append) in %s" % sorted(raised_for)
         site = "save_virtual_file:write@%s" % _branch_kind(fn_node, node)
         if verdict is True:
             c.ok(site, "dominated by a guard that raises exactly when the target exists and append was not requested", repo.loc(fn, node))
@@ -142,9 +169,13 @@ def vf1(ctx, c):
             c.ok(site + ":sequence", "add_files(whole list) -> set_buffer(container buffer) -> write", repo.loc(fn, node))
         # the container is fresh and of the kind being saved
         ctor = None
-        for st in ast.walk(fn_node):
+        for st in [x for b_ in before for x in ast.walk(b_)] or []:
             if isinstance(st, ast.Assign) and cont and U(st.targets[0]) == cont and isinstance(st.value, ast.Call):
-                ctor = st.value
+                ctor = st.value         # the binding in the block of this write (the same local name may be used in every branch)
+        if ctor is None:
+            for st in ast.walk(fn_node):
+                if isinstance(st, ast.Assign) and cont and U(st.targets[0]) == cont and isinstance(st.value, ast.Call):
+                    ctor = st.value
         kind = _branch_kind(fn_node, node)
         if ctor is None:
             c.undecided(site + ":container", "construction-not-found", "", repo.loc(fn, node))
@@ -452,7 +483,7 @@ def cli4(ctx, c):
                 n_eval += 1
                 site = "file_util --%s%s%s" % (sw, "" if files is None else " --files " + " ".join(files), " --append" if append else "")
                 vfs = [e[3] for e in events if e[0] == "new" and e[1] == "VirtualFile"]
-                target = next((o for o in vfs if any(isinstance(a, Obj) and "target.img" in [x for x in getattr(a, "args", [])] for a in getattr(o, "args", []))), None)
+                target = next((o for o in vfs if _built_on(o, "target.img")), None)
                 problems = []
                 if end and end.startswith("raise"):
                     problems.append(("end", "the run ends in %s" % end))
@@ -533,12 +564,31 @@ def cli4(ctx, c):
             c.finding("file_util --to_bin:several files", "an image holding %s files is not refused%s" % ({2: "two", 3: "three"}[n_on_image], "" if files is None else " when --files names one"),
                       "%s: %s; --to_bin writes a raw binary, which holds one file, and must refuse an image that holds more than one" %
                       (site, "the target is saved" if saves else "the run ends with %s" % end), where)
+    # the names given with --files are compared whole (case aside): cutting them at a dot, a blank or a length selects other files than the ones asked for
+    for n_ in ast.walk(fn0.node):
+        if isinstance(n_, ast.Assign) and "args.files" in U(n_.value):
+            cut = [x for x in ast.walk(n_.value) if (isinstance(x, ast.Call) and isinstance(x.func, ast.Attribute) and x.func.attr in ("split", "rsplit", "partition", "rpartition", "replace", "removesuffix", "rstrip", "lstrip"))
+                   or (isinstance(x, ast.Subscript) and isinstance(x.slice, ast.Slice))]
+            if cut:
+                c.finding("file_util.main:files-normalisation", "the requested names are cut before they are compared (%s)" % U(cut[0])[:40],
+                          "file_util.main normalises the --files arguments with `%s`: a requested name such as V1.2 is compared as V1, so it no longer selects the file V1.2 and selects "
+                          "the file V1 instead" % U(cut[0])[:60], repo.loc(fn0, n_))
     from ..model import one_shot_reuse as _osr
     for nm_, b_, uses_ in _osr(fn0.node):
         c.finding("file_util.main:one-shot", "`%s` is a one-shot iterator read at %d places" % (nm_, len(uses_)),
                   "file_util.main binds `%s = %s` and loops over it for more than one target: the first loop exhausts it, so when two targets are given in one run (--to_cas X --to_dsk Y) "
                   "the second image is written with no files at all, and the run still reports success" % (nm_, U(b_.value)[:50]), repo.loc(fn0, b_))
     c.ok("file_util.main", "%d configurations evaluated" % n_eval, where, nontrivial=False)
+
+
+def _built_on(o, path):
+    """the VirtualFile object o wraps a SourceFile constructed on `path` (given positionally or by keyword)"""
+    from ..concrete import Obj as _Ob
+    parts = list(getattr(o, "args", [])) + list(getattr(o, "attrs", {}).values())
+    for a in parts:
+        if isinstance(a, _Ob) and (path in list(getattr(a, "args", [])) or path in list(getattr(a, "attrs", {}).values())):
+            return True
+    return False
 
 
 def cli5(ctx, c):
@@ -553,7 +603,7 @@ def cli5(ctx, c):
     flat = flatten(repo, fn0, depth=2)
     n_eval = 0
     for sw, kind in (("to_bin", "BINARY"), ("to_cas", "CASSETTE"), ("to_dsk", "DISK")):
-        for pname in ("PROG", None):
+        for pname in ("PROG", None, ""):
             for cname in (None, "cli", "", "na.me"):
                 for append in (False, True):
                     env = dict(ctx.env)
@@ -572,7 +622,7 @@ def cli5(ctx, c):
                     problems = []
                     files = [e[3] for e in events if e[0] == "new" and e[1] == "CoCoFile"]
                     vfs = [e[3] for e in events if e[0] == "new" and e[1] == "VirtualFile"]
-                    target = next((o for o in vfs if any(isinstance(a, Obj) and "target.img" in getattr(a, "args", []) for a in getattr(o, "args", []))), None)
+                    target = next((o for o in vfs if _built_on(o, "target.img")), None)
                     if end and end.startswith("raise"):
                         problems.append(("sequence", "the run ends in %s" % end))
                     if len(files) != 1:
@@ -594,7 +644,7 @@ def cli5(ctx, c):
                         if show(a.get("data_type")) not in ("NumericValue(0)",):
                             problems.append(("file", "data type is %s, binary is 0" % show(a.get("data_type"))))
                     # the source named on the command line is read, and what was read is what is assembled
-                    src = next((e[3] for e in events if e[0] == "new" and e[1] == "SourceFile" and "x.asm" in getattr(e[3], "args", [])), None)
+                    src = next((e[3] for e in events if e[0] == "new" and e[1] == "SourceFile" and ("x.asm" in getattr(e[3], "args", []) or "x.asm" in list(e[3].attrs.values()))), None)
                     reads = [i for i, e in enumerate(events) if e[0] == "call" and len(e) > 6 and e[6] is src and e[2] == "read_file"]
                     procs = [i for i, e in enumerate(events) if e[0] == "call" and e[1] == "<Program object>" and e[2] == "process"]
                     if src is None:
@@ -657,7 +707,7 @@ def cli5(ctx, c):
             missing = []
             for sw_ in combo:
                 need_ = sw_ == "to_bin" or bool(pname)
-                tgt = next((o for o in vfs if any(isinstance(a, Obj) and ("target_%s.img" % sw_) in getattr(a, "args", []) for a in getattr(o, "args", []))), None)
+                tgt = next((o for o in vfs if _built_on(o, "target_%s.img" % sw_)), None)
                 saved = tgt is not None and any(e[0] == "call" and len(e) > 6 and e[6] is tgt and e[2] == "save_virtual_file" for e in events)
                 if need_ and not saved:
                     missing.append("--%s is given but its %s file is not saved" % (sw_, KV[sw_]))
@@ -974,6 +1024,8 @@ def vf4(ctx, c):
         for n in ast.walk(f.node):
             if isinstance(n, ast.Assign) and any(U(t) == "self.file_exists" for t in n.targets):
                 assigns.append((f.name, try_fold(n.value), n))
+            if isinstance(n, ast.AnnAssign) and U(n.target) == "self.file_exists" and n.value is not None:
+                assigns.append((f.name, try_fold(n.value), n))
     got = sorted((a, b) for a, b, _ in assigns)
     c.check(got == [("__init__", False), ("open_virtual_file", True)], "file_exists:assignments", "False in __init__, True in open_virtual_file", "assignments %s" % got,
             "VirtualFile.file_exists is assigned at %s; it must start False and become True exactly when the target path exists" % got, C.module.rel)
@@ -1140,10 +1192,19 @@ def vf4(ctx, c):
                     "get_coco_files swallows %s while sniffing" % hs, repo.loc(gc, n))
             # the return pairs the container with its kind
             for r in [x for x in ast.walk(n) if isinstance(x, ast.Return)]:
-                m = re.fullmatch(r"\((\w+)\.list_files\(\), VirtualFileType\.(\w+)\)", U(r.value))
+                rtxt = U(r.value)
+                if isinstance(r.value, ast.Tuple) and r.value.elts and isinstance(r.value.elts[0], ast.Name):
+                    # a local that holds the listing (files = image.list_files()), bound once in this try
+                    b_ = [x.value for x in ast.walk(n) if isinstance(x, ast.Assign) and any(U(t_) == r.value.elts[0].id for t_ in x.targets)]
+                    if len(b_) == 1:
+                        rtxt = "(%s, %s)" % (U(b_[0]), ", ".join(U(e_) for e_ in r.value.elts[1:]))
+                m = re.fullmatch(r"\((\w+)\.list_files\(\), VirtualFileType\.(\w+)\)", rtxt)
                 okp = m is not None and order and KINDS.get(m.group(2)) == order[-1]
-                c.check(bool(okp), "get_coco_files:%s:kind" % (order[-1] if order else "?"), "listing paired with its own kind", "returns %s" % U(r.value),
-                        "get_coco_files returns %s for a %s" % (U(r.value), order[-1] if order else "?"), repo.loc(gc, r))
+                if m is None:
+                    c.undecided("get_coco_files:%s:kind" % (order[-1] if order else "?"), "returned-pair-not-recognised", rtxt[:80], repo.loc(gc, r))
+                else:
+                    c.check(bool(okp), "get_coco_files:%s:kind" % (order[-1] if order else "?"), "listing paired with its own kind", "returns %s" % U(r.value),
+                            "get_coco_files returns %s for a %s" % (U(r.value), order[-1] if order else "?"), repo.loc(gc, r))
     if not order:
         first = {}
         for n in ast.walk(gc.node):
@@ -1153,8 +1214,12 @@ def vf4(ctx, c):
     # decided by evaluating get_coco_files for the three kinds of content: disk reader accepts / only the cassette reader accepts / neither does
     from ..concrete import Obj as _Osn, ClsRef as _Csn, Desc as _Dsn, run_concrete as _rsn, _Raise as _Rsn
     sn_problems, sn_notes = [], []
-    for label_, disk_ok, cas_ok, want_kind, want_list in (("a disk image", True, True, "DISK", "<disk listing>"), ("a cassette image", False, True, "CASSETTE", "<cassette listing>"),
-                                                           ("neither", False, False, "BINARY", [])):
+    disk_listing = [_Osn("CoCoFile", label="<file on the disk>")]
+    tape_listing = [_Osn("CoCoFile", label="<file on the tape>")]
+    for label_, disk_ok, cas_ok, want_kind, want_list in (("a disk image", True, True, "DISK", disk_listing), ("a cassette image", False, True, "CASSETTE", tape_listing),
+                                                           ("neither", False, False, "BINARY", []),
+                                                           # a tape whose listing is empty (it begins with a file without data) is still a tape
+                                                           ("a cassette image that lists no file", False, "empty", "CASSETTE", [])):
         envs = dict(ctx.env)
         for cn_ in KINDS.values():
             envs[cn_] = _Csn(cn_)
@@ -1165,11 +1230,13 @@ def vf4(ctx, c):
             _seen.append(r.cls)
             if r.cls == "DiskFile":
                 if _d:
-                    return _Dsn("<disk listing>")
+                    return list(disk_listing)
                 raise _Rsn("raise:VirtualFileValidationError")
             if r.cls == "CassetteFile":
+                if _c == "empty":
+                    return []
                 if _c:
-                    return _Dsn("<cassette listing>")
+                    return list(tape_listing)
                 raise _Rsn("raise:VirtualFileValidationError")
             return _Dsn("<listing of %s>" % r.cls)
         evs, nts = [], []
@@ -1182,7 +1249,7 @@ def vf4(ctx, c):
             sn_problems.append(("result", "for %s the method ends with %s / returns %r" % (label_, end_, ret_)))
             continue
         kind_ = getattr(ret_[1], "name", None)
-        lst_ = ret_[0] if not isinstance(ret_[0], _Dsn) else str(ret_[0])
+        lst_ = list(ret_[0]) if isinstance(ret_[0], (list, tuple)) else ret_[0]
         if kind_ != want_kind:
             sn_problems.append(("kind", "content that is %s is reported as %s" % (label_, kind_ or ret_[1])))
         elif lst_ != want_list:
@@ -1482,9 +1549,12 @@ def cli1(ctx, c):
             else:
                 c.undecided("assembler.main:handler:%s" % U(h.type), "handler-shape-not-recognised", str(calls), repo.loc(fn, h))
         ex = [n for n in ast.walk(te.node) if isinstance(n, ast.Call) and U(n.func) == "sys.exit"]
-        codes = [try_fold(x.args[0]) if x.args else 0 for x in ex]
+        codes = [try_fold(x.args[0], ctx.env) if x.args else 0 for x in ex]
         last = body_without_doc(te.node)[-1]
-        c.check(bool(ex) and all(isinstance(k, int) and k != 0 for k in codes) and isinstance(last, ast.Expr) and U(last.value.func) == "sys.exit", "throw_error:exit", "sys.exit(non-zero) on every path", "exit codes %s" % codes,
+        if any(k is None for k in codes):
+            c.undecided("throw_error:exit", "exit-code-not-constant", str([U(x) for x in ex])[:80], repo.loc(te, te.node))
+        else:
+          c.check(bool(ex) and all(isinstance(k, int) and k != 0 for k in codes) and isinstance(last, ast.Expr) and U(last.value.func) == "sys.exit", "throw_error:exit", "sys.exit(non-zero) on every path", "exit codes %s" % codes,
                 "throw_error exits with %s; a diagnostic must end the command with a non-zero status before any output file is touched" % codes, repo.loc(te, te.node))
         idx = body_without_doc(main_flat).index(tr)
         late = all(body_without_doc(main_flat).index(b) > idx for b in blocks)
